@@ -20,7 +20,7 @@ import (
 
 type vxKV struct{ k, v []byte }
 
-func vxFeltIn(name string) *felt.Felt {
+func vxFeltInL4(name string) *felt.Felt {
 	b := vx.FeltBytes(name)
 	return new(felt.Felt).SetBytes(b[:])
 }
@@ -82,7 +82,7 @@ func VxC04LegacyUpdateRevert() {
 	slotN := felt.NewFromUint64[felt.Felt](0x21)
 
 	diff0 := core.EmptyStateDiff()
-	c0, v0, n0 := vxFeltIn("class0"), vxFeltIn("val0"), vxFeltIn("nonce0")
+	c0, v0, n0 := vxFeltInL4("class0"), vxFeltInL4("val0"), vxFeltInL4("nonce0")
 	vx.Assume(!v0.IsZero() && !c0.IsZero())
 	diff0.DeployedContracts[*a1] = c0
 	diff0.StorageDiffs[*a1] = map[felt.Felt]*felt.Felt{*slotW: v0}
@@ -98,24 +98,24 @@ func VxC04LegacyUpdateRevert() {
 	if vx.Bool("hasStorage") {
 		m := map[felt.Felt]*felt.Felt{}
 		if vx.Bool("writesWrittenSlot") {
-			m[*slotW] = vxFeltIn("w")
+			m[*slotW] = vxFeltInL4("w")
 		}
 		if vx.Bool("writesFreshSlot") {
-			m[*slotN] = vxFeltIn("n")
+			m[*slotN] = vxFeltInL4("n")
 			zeroToFresh = m[*slotN].IsZero()
 		}
 		diff1.StorageDiffs[*a1] = m
 	}
 	if vx.Bool("hasNonce") {
-		diff1.Nonces[*a1] = vxFeltIn("nonce")
+		diff1.Nonces[*a1] = vxFeltInL4("nonce")
 	}
 	if vx.Bool("hasReplaced") {
-		diff1.ReplacedClasses[*a1] = vxFeltIn("class")
+		diff1.ReplacedClasses[*a1] = vxFeltInL4("class")
 	}
 	if vx.Bool("hasDeployed") {
-		diff1.DeployedContracts[*a2] = vxFeltIn("deployedclass")
+		diff1.DeployedContracts[*a2] = vxFeltInL4("deployedclass")
 		if vx.Bool("deployedNonce") { // a deploy-account transaction also bumps the new account's nonce
-			diff1.Nonces[*a2] = vxFeltIn("nonceB")
+			diff1.Nonces[*a2] = vxFeltInL4("nonceB")
 		}
 	}
 	su1 := &core.StateUpdate{OldRoot: &r0, StateDiff: &diff1}
@@ -166,12 +166,12 @@ func VxC04LegacySystemContractsRevert() {
 	diff1 := core.EmptyStateDiff()
 	which := 1 + vx.Choice("sysWrite", 3)
 	if which&1 != 0 {
-		v := vxFeltIn("sys1")
+		v := vxFeltInL4("sys1")
 		vx.Assume(!v.IsZero())
 		diff1.StorageDiffs[*felt.NewFromUint64[felt.Felt](1)] = map[felt.Felt]*felt.Felt{*slot: v}
 	}
 	if which&2 != 0 {
-		v := vxFeltIn("sys2")
+		v := vxFeltInL4("sys2")
 		vx.Assume(!v.IsZero())
 		diff1.StorageDiffs[*felt.NewFromUint64[felt.Felt](2)] = map[felt.Felt]*felt.Felt{*slot: v}
 	}
